@@ -28,11 +28,22 @@ type c19Op struct {
 	id     int
 	fail   bool
 	panics bool
-	pkind  int  // what the panicking operation panics with: a string, an error, a runtime error, a struct
-	nilres bool // returns (nil, nil): no value, no error - still one result
+	pkind  int    // what the panicking operation panics with: a string, an error, a runtime error, a struct
+	nilres bool   // returns (nil, nil): no value, no error - still one result
+	execs  *int32 // how often Operation has run (nil: not counted); every submitted operation runs once
+	sent   error  // when set, the failing operation returns this very error value rather than a fresh one
 }
 
+// c19OpErr is the error value of the failing operations whose result must carry "that operation's error":
+// the value handed back by Operation (or one that wraps it), not a copy of its text.
+type c19OpErr struct{ id int }
+
+func (e *c19OpErr) Error() string { return fmt.Sprintf("op %d failed", e.id) }
+
 func (o c19Op) Operation() (interface{}, error) {
+	if o.execs != nil {
+		atomic.AddInt32(o.execs, 1)
+	}
 	if o.panics {
 		switch o.pkind {
 		case 1:
@@ -49,6 +60,9 @@ func (o c19Op) Operation() (interface{}, error) {
 		return nil, nil
 	}
 	if o.fail {
+		if o.sent != nil {
+			return nil, o.sent
+		}
 		return nil, fmt.Errorf("op %d failed", o.id)
 	}
 	return o.id, nil
@@ -65,6 +79,19 @@ type c19ProcPlan struct {
 	PanicKind int   `json:"panic_value_kind,omitempty"`      // 0 string, 1 error, 2 runtime error, 3 struct
 	NilOps    []int `json:"operations_returning_nil_nil,omitempty"`
 	Batches   []int `json:"process_call_sizes,omitempty"` // how many operators each Process call submits (0 = an empty call)
+	// who talks to the Processor, and how the run is wound up
+	Direct     bool `json:"operators_sent_on_the_queue_itself_and_queue_closed_by_the_caller,omitempty"` // queue <- op ... close(queue): the queue is the caller's channel (Map feeds it that way)
+	Submitters int  `json:"submitting_goroutines,omitempty"`                                             // 0 = 1
+	Consumers  int  `json:"consuming_goroutines,omitempty"`                                              // 0 = 1
+	EarlyWaits bool `json:"two_goroutines_in_wait_before_anything_is_submitted,omitempty"`
+	ProbeFirst bool `json:"closed_channel_probed_before_the_final_waits,omitempty"`
+	CloseFirst bool `json:"close_then_wait_twice_then_read_the_results,omitempty"` // only with a result buffer that holds every result
+}
+
+// c19WaitRet is what a goroutine saw at the moment its Wait returned.
+type c19WaitRet struct {
+	arrived int32 // workers that had returned their token (exit hook events)
+	working int   // Processor.Working()
 }
 
 type c19Events struct {
@@ -124,39 +151,134 @@ func c19Processor(r *obs.Run, p c19ProcPlan) {
 	w := map[string]interface{}{"plan": p}
 	queue := make(chan concurrent.Operator, p.QueueCap)
 	proc := concurrent.NewProcessor(queue, p.Buffer, p.Threads)
+	waitRet := func() c19WaitRet { return c19WaitRet{atomic.LoadInt32(&arrived), proc.Working()} }
+	// Wait may be called by several goroutines, and at any time: two of them wait from the very start
+	nEarly := 0
+	earlyDone := make(chan c19WaitRet, 2)
+	if p.EarlyWaits {
+		nEarly = 2
+		for k := 0; k < nEarly; k++ {
+			go func() {
+				proc.Wait()
+				earlyDone <- waitRet()
+			}()
+		}
+	}
 	isNil := map[int]bool{}
 	for _, id := range p.NilOps {
 		isNil[id] = true
 	}
+	execs := make([]int32, p.Ops+1)     // executions per operation id
+	sentinels := make([]error, p.Ops+1) // the error value an operation fails with, where identity is compared
+	mkOp := func(i int) c19Op {
+		o := c19Op{id: i + 1, fail: i%5 == 3 && !isNil[i+1], panics: i+1 == p.PanicAt, pkind: p.PanicKind, nilres: isNil[i+1], execs: &execs[i+1]}
+		if o.fail && !o.panics && i%10 == 3 {
+			o.sent = &c19OpErr{i + 1}
+			sentinels[i+1] = o.sent
+		}
+		return o
+	}
+	ops := make([]c19Op, p.Ops)
+	for i := range ops {
+		ops[i] = mkOp(i)
+	}
+	nsub, ncons := maxInt(p.Submitters, 1), maxInt(p.Consumers, 1)
+	if threads == 1 && p.PanicAt > 0 {
+		nsub = 1 // see c19Case: with one worker the panicking operation has to be submitted last
+	}
+	closeFirst := p.CloseFirst && p.Buffer >= p.Ops && len(p.NilOps) == 0
 	allIn := make(chan struct{}) // closed by the consumer once every result is in (only waited for when NilOps is set)
-	go func() {
-		next := 0
-		submit := func(n int) {
-			var batch []concurrent.Operator
-			for ; n > 0 && next < p.Ops; n-- {
-				i := next
-				next++
-				batch = append(batch, c19Op{id: i + 1, fail: i%5 == 3 && !isNil[i+1], panics: i+1 == p.PanicAt, pkind: p.PanicKind, nilres: isNil[i+1]})
+	// the submitters share the operations (and the planned Process call sizes) among themselves
+	var smu sync.Mutex
+	next, bi := 0, 0
+	nextBatch := func() (lo, hi int, ok bool) {
+		smu.Lock()
+		defer smu.Unlock()
+		n := 1
+		if bi < len(p.Batches) {
+			n = p.Batches[bi]
+			bi++
+		} else if next >= p.Ops {
+			return 0, 0, false
+		}
+		lo, hi = next, minInt(next+n, p.Ops)
+		next = hi
+		return lo, hi, true
+	}
+	var subWG sync.WaitGroup
+	for s := 0; s < nsub; s++ {
+		subWG.Add(1)
+		go func() {
+			defer subWG.Done()
+			for {
+				lo, hi, ok := nextBatch()
+				if !ok {
+					return
+				}
+				if p.Direct {
+					for i := lo; i < hi; i++ {
+						queue <- ops[i]
+					}
+					continue
+				}
+				var batch []concurrent.Operator
+				for i := lo; i < hi; i++ {
+					batch = append(batch, ops[i])
+				}
+				proc.Process(batch...)
 			}
-			proc.Process(batch...)
-		}
-		for _, n := range p.Batches {
-			submit(n)
-		}
-		for next < p.Ops {
-			submit(1)
-		}
+		}()
+	}
+	closed := make(chan struct{})
+	go func() {
+		subWG.Wait()
 		if len(p.NilOps) > 0 {
 			<-allIn // while the queue is open the results channel cannot be closed: an empty receive is a real result
 		}
-		proc.Close()
+		if p.Direct {
+			close(queue) // "after the queue is closed": the statement does not name Processor.Close
+		} else {
+			proc.Close()
+		}
+		close(closed)
 	}()
+	violate := func(what string) {
+		r.Violate("processor-results", fmt.Sprintf("threads=%d buffer=%d ops=%d: %s", p.Threads, p.Buffer, p.Ops, what), w)
+	}
+	// what Wait's return promises: every worker has exited (returned its token; none is counted as working)
+	earlyReturn := func(who string, wr c19WaitRet) bool {
+		if int(wr.arrived) >= threads && wr.working == 0 {
+			return false
+		}
+		violate(fmt.Sprintf("%s returned when %d of %d workers had returned their token and Working() said %d", who, wr.arrived, threads, wr.working))
+		return true
+	}
+	waits := 0
+	if closeFirst { // everything fits into the result buffer: close, wait (twice), and only then read the results
+		<-closed
+		for k := 0; k < 2; k++ {
+			proc.Wait()
+			waits++
+			if earlyReturn("Wait (before any result was read)", waitRet()) {
+				return
+			}
+		}
+	}
+	var mu sync.Mutex // guards seen, bad, nilSeen, identities: the consumers share the receives
 	seen := map[int]int{}
 	bad := ""
-	nilSeen := 0
-	for i := 0; i < p.Ops; i++ {
-		v, err := proc.Result()
+	nilSeen, identities := 0, 0
+	judge := func(i int, v interface{}, err error) {
+		var ce *c19OpErr
 		switch {
+		case err != nil && errors.As(err, &ce):
+			// the error value itself (or a wrapper around it) came back: it must be the one this operation returned
+			if ce.id < 1 || ce.id > p.Ops || sentinels[ce.id] != error(ce) {
+				bad = fmt.Sprintf("result %d carries an error value that no operation of this run returned: %v", i, err)
+			} else {
+				seen[ce.id]++
+				identities++
+			}
 		case err != nil:
 			var id int
 			if p.PanicKind >= 2 && strings.HasPrefix(err.Error(), "concurrent: processor panic:") {
@@ -171,6 +293,8 @@ func c19Processor(r *obs.Run, p c19ProcPlan) {
 			} else {
 				if (id-1)%5 != 3 || id == p.PanicAt {
 					bad = fmt.Sprintf("operation %d does not fail, yet its result carries an error", id)
+				} else if id >= 1 && id <= p.Ops && sentinels[id] != nil {
+					bad = fmt.Sprintf("operation %d failed with a particular error value; its result carries another error with the same text (%T), so the caller cannot recognise it", id, err)
 				}
 				seen[id]++
 			}
@@ -179,16 +303,53 @@ func c19Processor(r *obs.Run, p c19ProcPlan) {
 		case v == nil:
 			bad = fmt.Sprintf("result %d of %d is empty (nil value, nil error): the results channel was closed early or a result was lost", i, p.Ops)
 		default:
-			id := v.(int)
-			if (id-1)%5 == 3 || id == p.PanicAt {
+			id, ok := v.(int)
+			if !ok {
+				bad = fmt.Sprintf("result %d carries the value %v, which no operation returned", i, v)
+			} else if (id-1)%5 == 3 || id == p.PanicAt {
 				bad = fmt.Sprintf("operation %d fails, yet its result carries a value", id)
 			}
 			seen[id]++
 		}
-		if bad != "" {
-			break
+	}
+	var claimed int32
+	consume := func() {
+		for {
+			i := int(atomic.AddInt32(&claimed, 1)) - 1
+			if i >= p.Ops {
+				return
+			}
+			v, err := proc.Result()
+			mu.Lock()
+			if bad == "" {
+				judge(i, v, err)
+			}
+			stop := bad != ""
+			mu.Unlock()
+			if stop {
+				return
+			}
 		}
 	}
+	consDone := make(chan struct{}, ncons)
+	for c := 1; c < ncons; c++ {
+		go func() {
+			consume()
+			consDone <- struct{}{}
+		}()
+	}
+	consume()
+	for c := 1; c < ncons; c++ {
+		mu.Lock()
+		stop := bad != ""
+		mu.Unlock()
+		if stop {
+			break // the others may be waiting for results that never come
+		}
+		<-consDone
+	}
+	mu.Lock()
+	defer mu.Unlock() // from here on only this goroutine judges
 	close(allIn)
 	if bad == "" && nilSeen != len(p.NilOps) {
 		bad = fmt.Sprintf("%d empty results for %d operations returning (nil, nil)", nilSeen, len(p.NilOps))
@@ -206,19 +367,60 @@ func c19Processor(r *obs.Run, p c19ProcPlan) {
 	}
 	if bad != "" {
 		w["results_seen"] = seen
-		r.Violate("processor-results", fmt.Sprintf("threads=%d buffer=%d ops=%d: %s", p.Threads, p.Buffer, p.Ops, bad), w)
+		violate(bad)
 		return
 	}
-	// all workers exit, Wait returns (a worker stuck forever is caught by the runtime's deadlock detector)
-	proc.Wait()
 	// the results channel is closed: one more receive returns at once with the zero result
-	v, err := proc.Result()
-	if v != nil || err != nil {
-		r.Violate("processor-results", fmt.Sprintf("threads=%d ops=%d: an extra result (%v, %v) arrived after all operations were accounted for", p.Threads, p.Ops, v, err), w)
+	probe := func(when string) bool {
+		v, err := proc.Result()
+		if v != nil || err != nil {
+			violate(fmt.Sprintf("an extra result (%v, %v) arrived %s, after all operations were accounted for", v, err, when))
+			return false
+		}
+		return true
+	}
+	if p.ProbeFirst && !closeFirst {
+		// the last worker closes the channel; no Wait is needed for that (the early waiters, if any, may or may not have returned)
+		if !probe("before the final Wait calls") {
+			return
+		}
+	}
+	// all workers exit, Wait returns - for every caller of Wait, however many there are, and again afterwards
+	// (a worker or waiter stuck forever is caught by the deadlock watcher)
+	lateDone := make(chan c19WaitRet, 2)
+	for k := 0; k < 2; k++ {
+		go func() {
+			proc.Wait()
+			lateDone <- waitRet()
+		}()
+	}
+	rets := []c19WaitRet{<-lateDone, <-lateDone}
+	for k := 0; k < nEarly; k++ {
+		rets = append(rets, <-earlyDone)
+	}
+	proc.Wait()
+	rets = append(rets, waitRet())
+	waits += len(rets)
+	for _, wr := range rets {
+		if earlyReturn("Wait", wr) {
+			return
+		}
+	}
+	if !probe("after Wait") {
 		return
+	}
+	// every submitted operation ran once: its one result is the outcome of its one execution
+	for id := 1; id <= p.Ops; id++ {
+		if n := atomic.LoadInt32(&execs[id]); n != 1 {
+			violate(fmt.Sprintf("operation %d was submitted once and produced one result, but was executed %d times", id, n))
+			return
+		}
 	}
 	r.Count("processor_runs", 1)
 	r.Count("processor_results", int64(p.Ops))
+	r.Count("processor_wait_calls_returned_with_all_workers_gone", int64(waits))
+	r.Count("processor_operations_executed_exactly_once", int64(p.Ops))
+	r.Count("processor_error_values_compared_by_identity", int64(identities))
 	if p.Barrier {
 		r.Count("processor_barrier_runs", 1)
 	}
@@ -233,6 +435,24 @@ func c19Processor(r *obs.Run, p c19ProcPlan) {
 	}
 	if len(p.Batches) > 0 {
 		r.Count("processor_runs_with_batched_process_calls", 1)
+	}
+	if p.Direct {
+		r.Count("processor_runs_fed_and_closed_on_the_queue_directly", 1)
+	}
+	if nsub > 1 {
+		r.Count("processor_runs_with_several_submitters", 1)
+	}
+	if ncons > 1 {
+		r.Count("processor_runs_with_several_consumers", 1)
+	}
+	if p.EarlyWaits {
+		r.Count("processor_runs_with_waiters_from_the_start", 1)
+	}
+	if p.ProbeFirst && !closeFirst {
+		r.Count("processor_runs_probing_the_closed_channel_before_wait", 1)
+	}
+	if closeFirst {
+		r.Count("processor_runs_close_wait_wait_then_read", 1)
 	}
 	h, n := ev.hash()
 	r.Count("hook_events", int64(n))
@@ -252,8 +472,10 @@ type c19Mapper struct {
 type c19Rec struct {
 	mu     sync.Mutex
 	slices [][2]int
-	failAt int  // the chunk holding this position fails (-1: none)
-	panics bool // ... by panicking rather than by returning an error
+	failAt int            // the chunk holding this position fails (-1: none)
+	panics bool           // ... by panicking rather than by returning an error
+	nilAt  int            // the chunk holding this position returns (nil, nil): still one result (-1: none)
+	execs  map[[2]int]int // executions per chunk
 }
 
 func (m c19Mapper) Len() int { return m.hi - m.lo }
@@ -266,6 +488,12 @@ func (m c19Mapper) Slice(i, j int) concurrent.Mapper {
 func (m c19Mapper) Operation() (interface{}, error) {
 	if m.hi == m.lo { // no chunk of a non-empty input is empty; saying so ends a Map that would go on handing out empty chunks
 		return nil, fmt.Errorf("empty chunk [%d,%d)", m.lo, m.hi)
+	}
+	m.rec.mu.Lock()
+	m.rec.execs[[2]int{m.lo, m.hi}]++
+	m.rec.mu.Unlock()
+	if f := m.rec.nilAt; f >= m.lo && f < m.hi {
+		return nil, nil
 	}
 	if f := m.rec.failAt; f >= m.lo && f < m.hi {
 		if m.rec.panics {
@@ -285,22 +513,48 @@ func c19Map(r *obs.Run) {
 		r.Count("map_runs_with_a_huge_thread_count", 1)
 	}
 	maxChunk := []int{1, 2, 3, 10, 1000, 1 + rng.Intn(50)}[rng.Intn(6)]
-	rec := &c19Rec{failAt: -1}
+	rec := &c19Rec{failAt: -1, nilAt: -1, execs: map[[2]int]int{}}
 	if n > 0 && rng.Intn(4) == 0 { // one chunk fails (or panics): Map reports an error, and nothing panics outside the workers
 		rec.failAt, rec.panics = rng.Intn(minInt(n, 1+rng.Intn(n))), rng.Intn(2) == 0
 	}
-	r.Crumb(fmt.Sprintf("map n=%d threads=%d maxChunk=%d failAt=%d panics=%v", n, threads, maxChunk, rec.failAt, rec.panics))
-	res, err := concurrent.Map(c19Mapper{0, n, rec}, threads, maxChunk)
+	if n > 0 && rec.failAt < 0 && rng.Intn(3) == 0 { // one chunk has nothing to report: (nil, nil) is its result all the same
+		rec.nilAt = rng.Intn(n)
+	}
+	viaPromise := rng.Intn(4) == 0 // the same Map behind PromiseMap: its promise takes Map's results, or Map's error
+	r.Crumb(fmt.Sprintf("map n=%d threads=%d maxChunk=%d failAt=%d panics=%v nilAt=%d viaPromise=%v", n, threads, maxChunk, rec.failAt, rec.panics, rec.nilAt, viaPromise))
+	var res []interface{}
+	var err error
+	if viaPromise {
+		pm := concurrent.PromiseMap(c19Mapper{0, n, rec}, threads, maxChunk)
+		w1, w2 := <-pm.Wait(), <-pm.Wait() // a Wait that never returns is reported by the deadlock watcher
+		l1, ok1 := w1.Value.([]interface{})
+		l2, ok2 := w2.Value.([]interface{})
+		if (w1.Err == nil) != (w2.Err == nil) || (w1.Err == nil && (!ok1 || !ok2 || len(l1) != len(l2))) {
+			r.Violate("map-results", fmt.Sprintf("two Waits on the promise of one PromiseMap disagree: (%v, %v) and (%v, %v)", w1.Value, w1.Err, w2.Value, w2.Err), map[string]interface{}{"len": n, "threads": threads, "max_chunk": maxChunk})
+			return
+		}
+		res, err = l1, w1.Err
+	} else {
+		res, err = concurrent.Map(c19Mapper{0, n, rec}, threads, maxChunk)
+	}
 	rec.mu.Lock() // after a failure the goroutine feeding chunks may still be slicing
 	slices := append([][2]int(nil), rec.slices...)
+	execs := map[[2]int]int{}
+	for k, v := range rec.execs {
+		execs[k] = v
+	}
 	rec.mu.Unlock()
-	w := map[string]interface{}{"len": n, "threads": threads, "max_chunk": maxChunk, "slices": slices, "results": fmt.Sprint(res), "failing_position": rec.failAt, "fails_by_panicking": rec.panics}
+	w := map[string]interface{}{"len": n, "threads": threads, "max_chunk": maxChunk, "slices": slices, "results": fmt.Sprint(res), "failing_position": rec.failAt, "fails_by_panicking": rec.panics,
+		"position_of_the_chunk_returning_nil_nil": rec.nilAt, "through_promisemap": viaPromise}
 	if rec.failAt >= 0 {
 		if err == nil {
 			r.Violate("map-error", fmt.Sprintf("the chunk holding position %d failed and Map returned no error", rec.failAt), w)
 			return
 		}
 		r.Count("map_runs_with_a_failing_chunk", 1)
+		if viaPromise {
+			r.Count("promisemap_runs_with_a_failing_chunk", 1)
+		}
 		r.Note(fmt.Sprintf("mapfail/%d/%d/%d/%d/%v", n, threads, maxChunk, rec.failAt, rec.panics), true)
 		return
 	}
@@ -327,7 +581,12 @@ func c19Map(r *obs.Run) {
 		return
 	}
 	got := map[[2]int]int{}
+	nils := 0
 	for _, v := range res {
+		if v == nil && rec.nilAt >= 0 {
+			nils++ // the result of the chunk that returned (nil, nil)
+			continue
+		}
 		iv, ok := v.([2]int)
 		if !ok {
 			r.Violate("map-results", fmt.Sprintf("unexpected result %v", v), w)
@@ -336,12 +595,31 @@ func c19Map(r *obs.Run) {
 		got[iv]++
 	}
 	for _, s := range sl {
-		if got[s] != 1 {
+		want := 1
+		if rec.nilAt >= s[0] && rec.nilAt < s[1] {
+			want = 0
+			if nils != 1 {
+				r.Violate("map-results", fmt.Sprintf("chunk %v returned (nil, nil): %d empty results among the %d returned", s, nils, len(res)), w)
+				return
+			}
+		}
+		if got[s] != want {
 			r.Violate("map-results", fmt.Sprintf("chunk %v produced %d results", s, got[s]), w)
+			return
+		}
+		if execs[s] != 1 {
+			r.Violate("map-results", fmt.Sprintf("chunk %v was handed out once and was executed %d times", s, execs[s]), w)
 			return
 		}
 	}
 	r.Count("map_runs", 1)
+	r.Count("map_chunks_executed_exactly_once", int64(len(sl)))
+	if rec.nilAt >= 0 {
+		r.Count("map_runs_with_a_chunk_returning_nil_nil", 1)
+	}
+	if viaPromise {
+		r.Count("promisemap_runs", 1)
+	}
 	r.Count("map_chunks", int64(len(sl)))
 	r.Note(fmt.Sprintf("map/%d/%d/%d", n, threads, maxChunk), len(sl) >= 2)
 }
@@ -633,8 +911,10 @@ func init() {
 	register(&obs.Monitor{
 		ID:    "C19",
 		Level: "exploration",
-		Rule: "per case one of: (a) a Processor run - threads 1..16 x result buffer {0,1,n} x operations {0, <threads, =threads, >>threads} x queue capacity x GOMAXPROCS {1,2,4,16}, unique operation ids, every fifth operation failing, in a quarter of the runs one operation panicking (its result must carry the panic as an error), results consumed and counted (exactly-once), then Wait and one more receive that must find the channel closed; " +
-			"half of the runs park every exiting worker after it returned its token until all have (bounded); (b) concurrent.Map with a recording Mapper (Len 0..1000, threads 1..16, chunk caps) - recorded slices must partition the input, one result per chunk; (c) sequential Fulfill/Fail/Wait laws (values include nil) for the 8 flag combinations against a model; " +
+		Rule: "per case one of: (a) a Processor run - threads 1..16 x result buffer {0,1,n} x operations {0, <threads, =threads, >>threads} x queue capacity x GOMAXPROCS {1,2,4,16}, unique operation ids, every fifth operation failing, in a quarter of the runs one operation panicking (its result must carry the panic as an error), results consumed and counted (exactly-once; half of the failing operations return a particular error value that must come back itself or wrapped; every operation executed once), then Wait and one more receive that must find the channel closed; " +
+			"the Processor is used by several callers at once and in every order the statement allows: operators through Process/Close or, in half of the runs, sent on the caller's queue and the queue closed directly; 1..3 submitting and 1..3 consuming goroutines; in half of the runs two goroutines in Wait from the start; always two goroutines in Wait at the end and one more Wait after them, each of which must return with every worker past its exit hook and Working()==0; " +
+			"in half of the runs the closed-channel receive also before any final Wait; with a result buffer that holds everything also Close, Wait, Wait and only then the results; " +
+			"half of the runs park every exiting worker after it returned its token until all have (bounded); (b) concurrent.Map with a recording Mapper (Len 0..1000, threads 1..16, chunk caps) - recorded slices must partition the input, one result per chunk (one chunk in a third of the runs returns (nil, nil)), every chunk executed once; one call in four goes through PromiseMap and two Waits on its promise; (c) sequential Fulfill/Fail/Wait laws (values include nil) for the 8 flag combinations against a model; " +
 			"(d) concurrent histories of 2..4 goroutines issuing Fulfill/Fail/Wait on one immutable promise, timestamps from one atomic counter, checked with porcupine against a write-once register (Wait enabled only when set), half of them with a delay injected inside Wait between take and put-back. " +
 			"Race detector on; panics/double close and all-goroutines-asleep deadlocks are reported from the child's exit. Non-trivial = >=1 operation/chunk/3 history operations; distinct = plan + hook event order / call-return order",
 		Batches: func(t string) int {
@@ -650,7 +930,10 @@ func init() {
 		MinDistinct: func(t string) int { return 1200 },
 		Floors: func(string) map[string]int64 {
 			return map[string]int64{"processor_runs": 500, "processor_barrier_runs": 200, "processor_zero_operation_runs": 80, "processor_results": 5000, "map_runs": 300, "map_chunks": 1500,
-				"promise_sequential_histories": 300, "promise_histories_checked": 500, "promise_wait_hook_delays": 100, "promise_operations": 2000, "promise_late_settle_histories": 100}
+				"promise_sequential_histories": 300, "promise_histories_checked": 500, "promise_wait_hook_delays": 100, "promise_operations": 2000, "promise_late_settle_histories": 100,
+				"processor_runs_fed_and_closed_on_the_queue_directly": 200, "processor_runs_with_several_submitters": 200, "processor_runs_with_several_consumers": 200, "processor_runs_with_waiters_from_the_start": 200,
+				"processor_runs_probing_the_closed_channel_before_wait": 150, "processor_runs_close_wait_wait_then_read": 100, "processor_error_values_compared_by_identity": 500,
+				"map_runs_with_a_chunk_returning_nil_nil": 40, "promisemap_runs": 40}
 		},
 		Assumptions: []string{"Processor operations do not panic; Map is given mappers that do not fail", "promise histories use Fulfill, Fail and Wait only (Recover/Break are outside the statement) and contain at least one settling call",
 			"a blocked-forever goroutine is decided logically by the harness watcher: two identical goroutine dumps one second apart in which every goroutine is parked in a channel/mutex/condition/wait-group operation and none is runnable, sleeping or in a system call (the runtime's own detector is disabled in race builds)"},
@@ -694,6 +977,16 @@ func c19Case(r *obs.Run, i int) {
 			plan.Batches = append(plan.Batches, n)
 			left -= n
 		}
+		// callers: the queue is the caller's own channel, and a pool is fed, drained and awaited by whoever likes
+		plan.Direct = rng.Intn(2) == 0
+		plan.Submitters = []int{1, 1, 2, 3}[rng.Intn(4)]
+		if eff == 1 && plan.PanicAt > 0 {
+			plan.Submitters = 1 // the panicking operation must stay the last one the only worker receives
+		}
+		plan.Consumers = []int{1, 1, 2, 3}[rng.Intn(4)]
+		plan.EarlyWaits = rng.Intn(2) == 0
+		plan.ProbeFirst = rng.Intn(2) == 0
+		plan.CloseFirst = buf >= ops && len(plan.NilOps) == 0 && rng.Intn(2) == 0
 		c19Processor(r, plan)
 	case 2:
 		c19Map(r)
